@@ -843,6 +843,25 @@ def r98(ctx):
                 base = op.value if isinstance(op, ast.Subscript) else op
                 if isinstance(op, ast.Constant):
                     continue
+                # locals that only name an element of the ensemble's interfaces
+                # (`interfaces = ens_set["interfaces"]; left, right = interfaces[0], interfaces[-1]`)
+                r_, rat = op, at
+                for _ in range(4):
+                    if isinstance(r_, ast.Name):
+                        r2, rat2 = deref(fl, r_, rat)
+                        if r2 is r_:
+                            break
+                        r_, rat = r2, rat2
+                    elif isinstance(r_, ast.Subscript) and isinstance(r_.value, ast.Name) and isinstance(r_.slice, (ast.Constant, ast.UnaryOp)):
+                        b2, bat2 = deref(fl, r_.value, rat)
+                        if b2 is r_.value:
+                            break
+                        r_ = ast.Subscript(value=b2, slice=r_.slice, ctx=ast.Load())
+                    else:
+                        break
+                rtxt = ast.unparse(r_).replace('"', "'")
+                if isinstance(r_, ast.Subscript) and isinstance(r_.slice, (ast.Constant, ast.UnaryOp)) and ast.unparse(r_.value).replace('"', "'").endswith("['interfaces']") and not any(isinstance(tt, ast.Subscript) and path_of(tt.value) in (path_of(base), path_of(r_.value)) for tt, st_, k_ in stores_in(f)):
+                    continue
                 srcs = list(fl.sources(base, at))
                 expanded = []
                 for s4 in srcs:
@@ -1210,6 +1229,9 @@ def run(ctx):
     ctx.attempt(r94, ctx)
     ctx.rule("R-9.17", "high-acceptance swap: each weight uses the interfaces and the move of one ensemble; ratio = exchanged / current", floor=5)
     ctx.attempt(r917, ctx)
+    ctx.rule("R-9.18", "an accepted path is weighted with the ensemble's own settings: calc_cv_vector receives interfaces, moves, lambda_minus_one and cap from the configuration, unmodified, at run_md as at load_paths (shared with C06 R-6.8)", floor=4)
+    from .shared import callsite_config_agreement
+    ctx.attempt(callsite_config_agreement, ctx, "R-9.18", "calc_cv_vector", ["interfaces", "moves", "lambda_minus_one", "cap"], " (an accepted path gets weight 0 in its own ensemble: ACC is reported for a path the scheduler cannot insert)")
     ctx.attempt(r95, ctx)
     ctx.attempt(r96, ctx)
     ctx.attempt(r98, ctx)
@@ -1236,6 +1258,9 @@ def run(ctx):
 
 
 VARIANTS = [
+    B("c09-run-md-minus-interface-or-false", TIS, '                picked[ens_num]["ens"]["tis_set"]["lambda_minus_one"],', '                picked[ens_num]["ens"]["tis_set"]["lambda_minus_one"] or False,', "R-9.18", control=True, why="seeded C09_l"),
+    K("c09-keep-extender-bounds-through-locals", TIS, '    interfaces = ens_set["interfaces"]\n    # ensemble[\'system\'] = source_seg.phasepoints[0].copy()\n', '    interfaces = ens_set["interfaces"]\n    left, right = interfaces[0], interfaces[-1]\n', also=[(TIS, '    if interfaces[0] <= sh_pt.order[0] < interfaces[-1]:', '    if left <= sh_pt.order[0] < right:', 2)]),
+    B("c09-extender-bounds-local-from-cap", TIS, '    interfaces = ens_set["interfaces"]\n    # ensemble[\'system\'] = source_seg.phasepoints[0].copy()\n', '    interfaces = ens_set["interfaces"]\n    left, right = interfaces[0], ens_set["tis_set"].get("interface_cap", interfaces[-1])\n', "R-9.8", also=[(TIS, '    if interfaces[0] <= sh_pt.order[0] < interfaces[-1]:', '    if left <= sh_pt.order[0] < right:', 2)]),
     B("c09-swap-weight-with-other-ensembles-move", TIS, "    c2_new = compute_weight(paths[0], intf1, ens_moves[1])", "    c2_new = compute_weight(paths[0], intf1, ens_moves[0])", "R-9.17", control=True, why="seeded C09_k"),
     B("c09-swap-ratio-inverted", TIS, "        p_swap_acc = c1_new * c2_new / (c1_old * c2_old)", "        p_swap_acc = c1_old * c2_old / (c1_new * c2_new)", "R-9.17"),
     K("c09-keep-swap-ratio-reordered", TIS, "        p_swap_acc = c1_new * c2_new / (c1_old * c2_old)", "        p_swap_acc = (c1_new / c1_old) * (c2_new / c2_old)"),
